@@ -48,7 +48,7 @@ def run(ctx):
     for suf, (must, must_not) in table.items():
         r, par = e1.reach(lib, suf)
         if r is None:
-            ctx.anchor_lost(rule, 'instance-graph root ' + suf)
+            ctx.anchor_lost(rule, 'instance-graph root ' + suf, hard=True)
             continue
         paths = {e1.node_path(lib.graph['nodes'][x]) for x in par}
         for m in sorted(must):
